@@ -1,7 +1,9 @@
 package mon
 
 import (
+	"bytes"
 	"fmt"
+	"log"
 	"strings"
 
 	stackage "github.com/JesseCoretta/go-stackage"
@@ -83,7 +85,7 @@ func c03Tier(tier string) (maxLen, exh, random int) {
 }
 
 // c03Growth applies the two extra growth operations (Transfer-into, Marshal-into).
-func c03Growth(s stackage.Stack, m *ListModel, o LOp, next func() any) (aspect, detail, shown string) {
+func c03Growth(s stackage.Stack, m *ListModel, o LOp, next func() any, nonest bool) (aspect, detail, shown string) {
 	before := m.Len()
 	switch o.K {
 	case "TransferInto":
@@ -113,7 +115,7 @@ func c03Growth(s stackage.Stack, m *ListModel, o LOp, next func() any) (aspect, 
 			in = append(in, next())
 		}
 		shown = fmt.Sprintf("Marshal(%q + %d values)", "AND", o.I)
-		full := m.Full()
+		full := m.Full() || nonest // (under no-nesting the decoded Stack is skipped like any other Stack)
 		err := s.Marshal(in...)
 		if err != nil {
 			return "return", "Marshal returned " + err.Error(), shown
@@ -172,10 +174,21 @@ func c03Run(c *core.Ctx, idx int) {
 		}
 		c.Count("nocap.explicit-arg")
 	}
+	nonest := false
 	if r.Chance(1, 4) {
 		// a permissive push policy must not change anything about capacity
 		s.SetPushPolicy(func(...any) error { return nil })
 		c.Count("with-permissive-push-policy")
+	} else if r.Chance(1, 4) {
+		// no-nesting concerns Stack values only (the Stack decoded by Marshal-into is then skipped)
+		s.SetNoNesting(true)
+		nonest = true
+		c.Count("with-no-nesting")
+	}
+	if r.Chance(1, 5) {
+		// every log level on, into a live (non-discarding) logger: observability must not change behaviour
+		s.SetLogger(log.New(&bytes.Buffer{}, "", 0)).SetLogLevel(stackage.AllLogLevels)
+		c.Count("with-active-logging")
 	}
 	var log []string
 	fulls, shrunkSinceFull, sawtooth, partial := 0, false, 0, false
@@ -188,7 +201,7 @@ func c03Run(c *core.Ctx, idx int) {
 		c.Count("op." + op.K)
 		if op.K == "TransferInto" || op.K == "MarshalInto" {
 			log = append(log, op.K)
-			a, d, shown := c03Growth(s, m, op, next)
+			a, d, shown := c03Growth(s, m, op, next, nonest)
 			log[len(log)-1] = shown
 			if a != "" {
 				fail(op.K, a, d)
